@@ -118,7 +118,7 @@ Proof.
   intros Hv H Hfa. pose proof H as H0.
   apply solve_cases in H. destruct H as [[Hd Er]|[Hd [Hr [b [st [Hs Er]]]]]].
   - exists (selections r), []. split; [|rewrite app_nil_r; reflexivity].
-    apply (solve_find_all_uncut inp r Hv H0 Hfa). left. subst r. rewrite Hfa. reflexivity.
+    subst r. rewrite Hfa. apply (degenerate_all_covers inp Hv Hd).
   - exists (map (map fst) (all_sols (fuel_of inp) (prim_cols inp) (mk_rows (matrix inp)))).
     unfold search_of in Hs. apply search_prefix in Hs; [|unfold fuel_of; lia].
     destruct Hs as [P [Q [EPQ Es]]]. simpl in Es. rewrite app_nil_r in Es.
